@@ -26,7 +26,7 @@ REGISTRY = {
     "C12": ("model_checking", ["bloomfam", "countmin"]),
     "C13": ("model_checking", ["bloomfam", "countmin", "compat"]),
     "C14": ("model_checking", ["bloomfam", "countmin", "qf", "cuckoo", "expanding"]),
-    "C16": ("model_checking", ["bloomfam", "countmin"]),
+    "C16": ("model_checking", ["bloomfam", "countmin", "saturation"]),
     "C15": ("model_checking", ["cuckoo"]),
     "C17": ("model_checking", ["countmin"]),
     "C18": ("model_checking", ["hashes"]),
